@@ -22,6 +22,12 @@ Mechanism A (universe export), everything decided by TLC:
    Python signature, PipeFunc(defaults=), update_defaults, Pipeline.update_defaults) or a bound value (bound=,
    update_bound), over direct / element-wise / reduced / partially reduced / two-output edges: a default never cuts an
    edge (the edge is validated as ever), a bound value cuts its own edge only.
+   METADATA cases (TypeCompat section 1 "metadata", LawMetadataSilent*): the metadata of an Annotated is an arbitrary
+   Python OBJECT -- the universe holds Annotated with a list / dict / set / plain-dataclass instance (all without a hash)
+   and a frozen-dataclass instance as metadata, at the top and inside a union / generic / Array; they are written into
+   the signatures as literals (two places = two equal objects), compared pairwise like every other annotation and wired
+   through the checked 2-3 function shapes (direct, element-wise, reduction, partial reduction, fan, own MapSpec).
+   TLC prints which kinds have no hash (META line); the harness verifies that its objects realise exactly that.
 4. Calibration: every `assert [not] is_type_compatible(X, Y)` of tests/test_typing.py whose operands fall in the
    grammar is translated to records and sent to TLC (a generated ad-hoc module over TypeCompat); the reference must
    agree with all of them, otherwise the check is a machinery failure (exit 2).
@@ -31,6 +37,7 @@ from __future__ import annotations
 
 import ast
 import contextlib
+import dataclasses
 import io
 import json
 import multiprocessing as mp
@@ -55,6 +62,10 @@ LEVEL = "model_checking"
 ATOMS = {"int": "int", "bool": "bool", "float": "float", "str": "str", "bytes": "bytes", "None": "None", "Any": "Any"}
 STYLES = ("typing", "pep604")            # how the source text of an annotation is written
 VNAME = {0: "no", 1: "yes", 2: "either"}
+# kinds of Annotated record = kinds of metadata object (TypeCompat section 1) -> the source text of the metadata
+META_SRC = {"ann": "META", "annlist": '["a", "list"]', "anndict": '{"doc": "text"}', "annset": '{"a", "set"}',
+            "anndata": 'Unit("m")', "annfrozen": 'FrozenUnit("m")'}
+ANN_KINDS = tuple(META_SRC)
 WNAME = {1: "tv", 2: "bare", 4: "num"}
 
 
@@ -76,8 +87,8 @@ def show(r: dict) -> str:
              "tvcons": "TypeVar(cons="}
     if k in ("tvbound", "tvcons"):
         return f"{names[k]}{inner})"
-    if k == "ann":
-        return f"Annotated[{inner}, m]"
+    if k in ANN_KINDS:
+        return f"Annotated[{inner}, {'m' if k == 'ann' else '<' + k[3:] + '>'}]"
     return f"{names.get(k, k)}[{inner}]"
 
 
@@ -103,6 +114,28 @@ class Meta:
         return "META"
 
 
+@dataclasses.dataclass
+class Unit:
+    """Annotated metadata as libraries write it: a plain dataclass (eq=True, not frozen => `__hash__ is None`)."""
+
+    name: str
+
+
+@dataclasses.dataclass(frozen=True)
+class FrozenUnit:
+    """The same, frozen: equal and hashable by value."""
+
+    name: str
+
+
+def meta_kind(m: Any) -> str:
+    """The kind of Annotated record a metadata object stands for (any other non-string object: an opaque one)."""
+    for t, k in ((list, "annlist"), (dict, "anndict"), (set, "annset"), (Unit, "anndata"), (FrozenUnit, "annfrozen")):
+        if isinstance(m, t):
+            return k
+    return "ann"
+
+
 class Userland:
     """A module in which annotated functions are defined with exec, as a user of pipefunc would write them."""
 
@@ -113,7 +146,8 @@ class Userland:
         sys.modules[self.mod.__name__] = self.mod
         self.ns = self.mod.__dict__
         self.ns.update({"Annotated": typing.Annotated, "Any": typing.Any, "Optional": typing.Optional,
-                        "Union": typing.Union, "TypeVar": typing.TypeVar, "Array": Array, "META": Meta()})
+                        "Union": typing.Union, "TypeVar": typing.TypeVar, "Array": Array, "META": Meta(),
+                        "Unit": Unit, "FrozenUnit": FrozenUnit})
         self._tv: dict[str, str] = {}
         self._objs: dict[tuple[str, str], tuple[Any, Any]] = {}
 
@@ -133,8 +167,10 @@ class Userland:
             return " | ".join(f"({x})" for x in e) if style == "pep604" else f"Union[{', '.join(e)}]"
         if k == "opt":
             return f"({e[0]}) | None" if style == "pep604" else f"Optional[{e[0]}]"
-        if k == "ann":
-            return f'Annotated[{e[0]}, "text"]' if style.startswith("strmeta") else f"Annotated[{e[0]}, META]"
+        if k == "ann" and style.startswith("strmeta"):
+            return f'Annotated[{e[0]}, "text"]'
+        if k in ANN_KINDS:          # the metadata is written out where the annotation is used: equal, not identical objects
+            return f"Annotated[{e[0]}, {META_SRC[k]}]"
         if k == "array":
             return f"Array[{e[0]}]"
         if k in ("tvar", "tvbound", "tvcons"):
@@ -229,8 +265,8 @@ def to_record(o: Any) -> dict | None:
             r = to_record(base)
         if any(isinstance(m, str) or typing.get_origin(m) is ArrayElementType for m in meta):
             return None
-        for _ in meta:
-            r = rec("ann", r) if r else None
+        for m in meta:
+            r = rec(meta_kind(m), r) if r else None
         return r
     if origin is typing.Union or isinstance(o, types.UnionType):
         ms = [to_record(x) for x in args]
@@ -256,8 +292,18 @@ def none_in_builtin(r: dict) -> bool:
     return here or any(none_in_builtin(x) for x in r["a"])
 
 
+def plain_ann(r: dict) -> dict:
+    """The record with every kind of Annotated written as the opaque one (the kind of metadata is a feature of its own)."""
+    return rec("ann" if r["k"] in ANN_KINDS else r["k"], *[plain_ann(x) for x in r["a"]])
+
+
+UNHASHABLE_KINDS = ("annlist", "anndict", "annset", "anndata")     # cross-checked with the META line of TLC on every run
+
+
 def features(a: dict, b: dict) -> dict:
-    f = {"tuple_arity_differs": False, "tuple_fixed_to_variadic": False, "required_annotated_source_not": False,
+    unhashable = contains(a, UNHASHABLE_KINDS) or contains(b, UNHASHABLE_KINDS)
+    a, b = plain_ann(a), plain_ann(b)
+    f = {"unhashable_metadata": unhashable, "tuple_arity_differs": False, "tuple_fixed_to_variadic": False, "required_annotated_source_not": False,
          "source_typevar": False, "source_annotated_union": False, "array_source_required_annotated": False,
          "none_arg_of_builtin_generic": none_in_builtin(a) or none_in_builtin(b)}
     unions = ("union", "opt")
@@ -334,8 +380,8 @@ MC_CFG = """SPECIFICATION Spec
 CONSTANTS Part = "{part}" Tier = "{tier}" Shard = {shard} NShards = {n}
 INVARIANT {invs}
 """
-PAIR_INVS = "InvVerdictDomain InvReflexive InvAnyTop InvUnion InvCovariant InvTransitive Emit"
-PIPE_INVS = "InvPipeDomain InvPipeEdges InvNamed InvSib InvSup Emit"
+PAIR_INVS = "InvVerdictDomain InvReflexive InvAnyTop InvUnion InvCovariant InvTransitive InvMetadata Emit"
+PIPE_INVS = "InvPipeDomain InvPipeEdges InvMeta InvNamed InvSib InvSup Emit"
 
 ADHOC = """---- MODULE MC_TypeCompatAdhoc ----
 (* generated by pfverif/props/c16.py: verdicts of TypeCompat for explicitly listed pairs / pipelines *)
@@ -351,7 +397,8 @@ Next == UNCHANGED case
 Spec == Init /\\ [][Next]_case
 LawsOnListed == \\A i \\in DOMAIN PairSeq : LET A == PairSeq[i][1]  B == PairSeq[i][2] IN
                    LawMonotone(A, B) /\\ LawReflexive(A) /\\ LawReflexive(B) /\\ LawAnyTop(A) /\\ LawCovariant(A, B, Strict)
-                   /\\ LawCovariant(A, B, Lenient) /\\ ((~HasNoAnn(A) /\\ ~HasNoAnn(B)) => LawUnion(A, B, StrT, Strict))
+                   /\\ LawCovariant(A, B, Lenient) /\\ LawMetadataSilent(A, B, Strict) /\\ LawMetadataSilent(A, B, Lenient)
+                   /\\ ((~HasNoAnn(A) /\\ ~HasNoAnn(B)) => LawUnion(A, B, StrT, Strict))
 ====
 """
 
@@ -401,6 +448,7 @@ def export_universe(ctx: Ctx, tier: str, pair_procs: int, pipe_procs: int):
         return job, run_tlc("MC_TypeCompat", cfg, wd, workers=workers, heap="3g", allow_violation=False, timeout=1500)
 
     anns: dict[int, dict] = {}
+    meta: list[dict] = []
     pairs: list[tuple[int, int, int, int]] = []
     pipes: list[dict] = []
     with ThreadPoolExecutor(max_workers=len(jobs)) as ex:
@@ -412,6 +460,8 @@ def export_universe(ctx: Ctx, tier: str, pair_procs: int, pipe_procs: int):
             if tag == "ANN":
                 if anns.setdefault(payload["i"], payload["t"]) != payload["t"]:
                     raise MachineryError("shards disagree on the order of the universe")
+            elif tag == "META":
+                meta.append({k: sorted(v) for k, v in payload.items()})
             elif tag == "PAIR":
                 pairs.append(tuple(payload))
                 got += 1
@@ -428,7 +478,34 @@ def export_universe(ctx: Ctx, tier: str, pair_procs: int, pipe_procs: int):
         raise MachineryError("duplicate pipeline cases exported")
     pairs.sort()
     pipes.sort(key=lambda p: (p["shape"], p["p"], p["c"], p["validate"]))
-    return anns, pairs, pipes
+    if not meta or any(m != meta[0] for m in meta):
+        raise MachineryError(f"kinds of Annotated metadata not exported (or shards disagree): {meta[:2]}")
+    return anns, pairs, pipes, meta[0]
+
+
+def metadata_realised(u: Userland, meta: dict) -> list[str]:
+    """The metadata objects the harness writes are what TypeCompat says they are: one kind of Annotated record per kind
+    of the specification, its metadata object hashable exactly when the specification says so, equal (and, without a
+    hash, never identical) between two places it is written in, and read back as the same kind.  Returns what is wrong."""
+    wrong = []
+    if sorted(meta["kinds"]) != sorted(ANN_KINDS) or sorted(meta["unhashable"]) != sorted(UNHASHABLE_KINDS):
+        return [f"TypeCompat has kinds {meta['kinds']} / unhashable {meta['unhashable']}, the harness {ANN_KINDS} / {UNHASHABLE_KINDS}"]
+    for k in ANN_KINDS:
+        for style in STYLES:
+            out, par = u.objects(rec(k, rec("int")), style)
+            (m1,), (m2,) = out.__metadata__, par.__metadata__
+            try:
+                hash(m1)
+                hashable = True
+            except TypeError:
+                hashable = False
+            if hashable != (k not in meta["unhashable"]):
+                wrong.append(f"{k} [{style}]: metadata {m1!r} hashable={hashable}")
+            if m1 != m2 or (not hashable and m1 is m2):      # (typing caches subscriptions with hashable arguments)
+                wrong.append(f"{k} [{style}]: the two written metadata objects are not equal" + " but distinct" * (not hashable))
+            if meta_kind(m1) != k:
+                wrong.append(f"{k} [{style}]: metadata {m1!r} is read back as {meta_kind(m1)}")
+    return wrong
 
 
 # ------------------------------------------------------------------------------------------------
@@ -679,7 +756,7 @@ def pipe_sig(desc: dict, style: str, observed: str, expect: str) -> dict:
             f[k] = f.get(k, False) or v
         if (desc["shape"] in ("multi2", "multi2x") or desc["shape"].startswith(("ren_", "sib2_", "supm_"))) and e["p"]["k"] == "None":  # tuple[None, int]
             f["none_arg_of_builtin_generic"] = True
-    reduced_annotated = any(e["via"] in ("reduce", "preduce") and e["p"]["k"] == "ann" for e in desc["edges"])
+    reduced_annotated = any(e["via"] in ("reduce", "preduce") and e["p"]["k"] in ANN_KINDS for e in desc["edges"])
     # supply shapes (TypeCompat section 8): what else can give the parameter under test / the other one a value, and how
     sup = [(q.get("sup", "none"), q.get("how", "none")) for q in desc["cons"]["params"]] if "cons" in desc else []
     supplied = desc["shape"].startswith("sup") and len(sup) == 2
@@ -753,7 +830,9 @@ def random_ann(rng: random.Random, d: int) -> dict:
         return rec(rng.choice(["list", "set", "dict", "tuple"]))
     k = rng.choice(["list", "set", "dict", "tuple", "tuple", "vtuple", "union", "opt", "ann", "array", "tvbound", "tvcons"])
     sub = lambda: random_ann(rng, d - 1)  # noqa: E731
-    if k in ("list", "set", "vtuple", "opt", "ann", "array"):
+    if k == "ann":
+        k = rng.choice(ANN_KINDS)          # what kind of object the metadata is
+    if k in ("list", "set", "vtuple", "opt", "array", *ANN_KINDS):
         return rec(k, sub())
     if k == "dict":
         return rec(k, rec(rng.choice(["int", "str", "Any"])), sub())
@@ -776,7 +855,7 @@ def mutate(rng: random.Random, r: dict, d: int) -> dict:
         if y < 0.3:
             return rec("union", r, rec(rng.choice(["str", "None", "float"])))
         if y < 0.45:
-            return rec("ann", r)
+            return rec(rng.choice(ANN_KINDS), r)
         if y < 0.6:
             return {"bool": rec("int"), "int": rec("bool")}.get(r["k"], rec("Any"))
         if y < 0.7 and r["k"] == "tuple" and r["a"]:
@@ -872,7 +951,8 @@ def run(ctx: Ctx) -> None:
     rng = random.Random(ctx.seed)
     u = userland()
     ctx.rule = ("pair case = (source annotation, required annotation, source style); ALL ordered pairs of the TLA+-defined "
-                "universe (quick: depth <= 1, thorough: depth <= 2 plus six depth-3 nestings) exported by TLC from MC_TypeCompat with the verdict "
+                "universe (quick: depth <= 1, thorough: depth <= 2 plus six depth-3 nestings; both: 9 annotations of depth <= 2 whose "
+                "Annotated metadata is a list / dict / set / dataclass instance [no hash] / frozen dataclass instance) exported by TLC from MC_TypeCompat with the verdict "
                 "yes/no/either, plus seeded random pairs of depth <= 3 decided by TLC through a generated ad-hoc module; "
                 "non-trivial = the two annotations differ, both exist and the required one is not Any. "
                 "pipeline case = (shape, annotations on its edges, validate flag, style) for 120 shapes of 2-3 functions (12 with "
@@ -883,20 +963,30 @@ def run(ctx: Ctx) -> None:
                 "axis / fully sliced / no entry], the pair under test on either input; 57 SUPPLY ones whose consumer parameter "
                 "under test [7 ways: nothing / signature default / defaults= / update_defaults / Pipeline.update_defaults / "
                 "bound= / update_bound] and/or other parameter [nothing / defaults= / bound=] can get a value otherwise, over a "
-                "direct / element-wise / reduced / partially reduced / two-output edge); "
+                "direct / element-wise / reduced / partially reduced / two-output edge); plus METADATA cases: the 9 annotations "
+                "with the other kinds of Annotated metadata as producer and/or consumer annotation [partners: 11 plain ones and "
+                "each other] over the 6 shapes direct2 / emap2 / reduce2 / preduce2 / fan3b / reduce_other2; "
                 "non-trivial = validation on and some checked edge joins two different explicit annotations")
     ctx.assumptions = [
         "TLC and the record <-> source-text translation of annotations are trusted (round-trip self-test on every run)",
         "annotation objects are read back through PipeFunc.output_annotation / parameter_annotations of exec'd functions",
         "every default / bound value the harness attaches is the int 0 (annotations are not enforced at attachment)",
+        "Annotated metadata objects: one representative per kind (a list, a dict, a set, an eq-dataclass instance, a frozen "
+        "dataclass instance, an instance of a plain class), written as a literal wherever the annotation is used; metadata "
+        "whose == raises or is not a bool (numpy arrays) is outside the grammar",
         "don't-care (verdict 'either'): source TypeVar; bare generic against a parametrised one of the same origin; "
         "int/bool -> float; at pipeline level a reduced producer that is itself annotated Array[...]",
         "forward references, numpy dtypes, user generics, ABCs (Sequence/Mapping) are outside the grammar",
     ]
 
     # 1. TLC: universe, laws, expected verdicts
-    anns, pairs, pipes = export_universe(ctx, tier, pair_procs=1 if quick else 2, pipe_procs=1)
+    anns, pairs, pipes, meta = export_universe(ctx, tier, pair_procs=1 if quick else 2, pipe_procs=1)
     n = len(anns)
+    wrong_meta = metadata_realised(u, meta)
+    ctx.selftest("Annotated metadata objects realise the kinds of the specification (hashable exactly where it says so)",
+                 not wrong_meta, f"kinds {meta['kinds']}, without a hash {meta['unhashable']}; wrong: {wrong_meta[:3]}")
+    if wrong_meta:
+        raise MachineryError("Annotated metadata not realised: " + "; ".join(wrong_meta[:3]))
     ctx.extra["universe"] = {"annotations": n, "ordered_pairs": len(pairs), "pipelines": len(pipes),
                              "max_depth": max(depth(a) for a in anns.values())}
     verdict_count = {v: 0 for v in VNAME.values()}
@@ -1004,6 +1094,32 @@ def run(ctx: Ctx) -> None:
                      f"victim={pipes[victim]['shape']} parameter {q['n']} sup={q['sup']} how={q['how']} "
                      + "; ".join(f"{show(e['p'])} -{e['via']}-> {show(e['c'])}" for e in pipes[victim]["edges"])
                      + f" expect={pipes[victim]['expect']} reported={sorted(set(got) - set(base))}")
+    #    and on a METADATA case: a compatible (partial) reduction of a producer whose Annotated metadata has no hash
+    new_kinds = tuple(k for k in ANN_KINDS if k != "ann")
+    on_edge = lambda d, kinds: any(contains(e["p"], kinds) or contains(e["c"], kinds) for e in d["edges"])  # noqa: E731
+    metak = [k for k in range(len(pipes)) if pipes[k]["validate"] and pipes[k]["expect"] == "accept" and k not in set(badp)
+             and pipes[k]["shape"] in ("reduce2", "preduce2") and contains(pipes[k]["edges"][0]["p"], UNHASHABLE_KINDS)
+             and pipes[k]["edges"][0]["c"]["k"] == "array"]
+    if metak:
+        victim = metak[len(metak) // 2]
+        lo = max(0, victim - 20)
+        window = pipes[lo: victim + 20]
+        got = check_pipes(ctx, window, corrupt=victim - lo, parallel=False)
+        base = check_pipes(ctx, window, corrupt=10**9, parallel=False)
+        ctx.selftest("metadata pipeline outcome corruption (one exported outcome flipped)",
+                     sorted(set(got) - set(base)) == [victim - lo],
+                     f"victim={pipes[victim]['shape']} "
+                     + "; ".join(f"{show(e['p'])} -{e['via']}-> {show(e['c'])}" for e in pipes[victim]["edges"])
+                     + f" expect={pipes[victim]['expect']} reported={sorted(set(got) - set(base))}")
+    elif not badp:
+        raise MachineryError("no compatible reduction of a producer with unhashable Annotated metadata was exported")
+    meta_pipes = [d for d in pipes if on_edge(d, new_kinds)]
+    ctx.extra["metadata_cases"] = {
+        "annotations": sum(1 for a in anns.values() if contains(a, new_kinds)),
+        "without_hash": sum(1 for a in anns.values() if contains(a, UNHASHABLE_KINDS)),
+        "pipelines": len(meta_pipes), "shapes": sorted({d["shape"] for d in meta_pipes}),
+        "through_a_reduction": sum(1 for d in meta_pipes if any(e["via"] in ("reduce", "preduce") for e in d["edges"])),
+        "rejected": sum(1 for d in meta_pipes if d["expect"] == "TypeError")}
     sup_pipes = [d for d in pipes if d["shape"].startswith("sup")]
     ctx.extra["supply_shapes"] = {"shapes": len({d["shape"] for d in sup_pipes}), "pipelines": len(sup_pipes),
                                   "edge_cut_by_bound": sum(1 for d in sup_pipes if d["cons"]["params"][0]["sup"] == "bound"),
